@@ -58,6 +58,9 @@ Definition u32 (n : N) : N := n mod 4294967296.
    than that and no swap); a loop of 2^26 or more iterations whose reads fail does not end within the time limit *)
 Definition alloc_fails (nbytes : N) : bool := 68719476736 <=? nbytes.
 Definition big_loop : N := 67108864.
+(* the buffer of a string whose bytes are not there (reached on failing reads only): from 2^33 bytes on malloc may return
+   NULL (it did for 6.8e10 bytes on a 62 GB machine), and fread then writes through NULL *)
+Definition str_alloc_fails (nbytes : N) : bool := 8589934592 <=? nbytes.
 (* a loop that only writes memory (the fillers of a name table) finishes quickly below 2^32 bytes; from there up to the
    allocation limit whether it finishes within the time limit and the memory of the machine is not determined by the
    program: Hang, which the comparison treats as "any result" *)
@@ -164,7 +167,7 @@ Definition s_string (nul : bool) : M (list N) := fun s =>
     | _, _ =>
         (* oasis_read(bytes, 1, count) != NoError: free, bytes = NULL, count = -1; `bytes[count++] = 0` *)
         if nul then RCrash
-        else if alloc_fails count && nonempty bs then RCrash               (* fread into a NULL buffer *)
+        else if str_alloc_fails count && nonempty bs then RCrash            (* fread into a NULL buffer *)
         else ROk [] (if short then mkS [] (Some SE_eof) else mkS (skipn (N.to_nat count) bs) (s_err s1))
     end.
 
